@@ -106,6 +106,26 @@ def lifecycle(c):
     c.canary("canary_always_runs", z3.And(z3.Not(armed), z3.BoolVal(ran_pre + ran_post > 0)))
 
 
+@contract(P, "Hook.flags_reconfigured", [(INF, "Hook.trainexec@setter"), (INF, "Hook.evalexec@setter"), (INF, "Hook.trainexec"), (INF, "Hook.evalexec"), (INF, "Hook.register"), (INF, "Hook.__wrapped_prehook"), (INF, "Hook.__wrapped_posthook")])
+def flags(c):
+    """the mode flags can be changed on a registered hook; the next module call obeys the NEW flags"""
+    it = c.interp
+    HookC = it.classv(repo.load_module(INF).classes["Hook"])
+    training = c.bool("training")
+    t0, e0, t1, e1 = c.bool("train_update_0"), c.bool("eval_update_0"), c.bool("train_update_1"), c.bool("eval_update_1")
+    n = [0]
+    m = new_module(c, training)
+    h = c.call(HookC, None, Model(lambda itp, module, *a, **k: n.__setitem__(0, n[0] + 1), "posthook"), train_update=t0, eval_update=e0)
+    c.call(c.getattr(h, "register"), m)
+    c.setattr(h, "trainexec", t1)
+    c.setattr(h, "evalexec", e1)
+    c.ensure("flags_read_back", z3.And(as_bool(c.getattr(h, "trainexec")) == t1.z, as_bool(c.getattr(h, "evalexec")) == e1.z))
+    c.call(m)
+    armed = z3.Or(z3.And(t1.z, training.z), z3.And(e1.z, z3.Not(training.z)))
+    c.ensure("next_call_obeys_the_new_flags", z3.If(armed, z3.BoolVal(n[0] == 1), z3.BoolVal(n[0] == 0)))
+    c.canary("canary_old_flags_used", z3.And(z3.BoolVal(n[0] == 1), z3.Not(armed)))
+
+
 def new_clamp(c, m, lo, hi, **kw):
     Cl = c.interp.classv(repo.load_module(NH).classes["Clamping"])
     return c.call(Cl, m, "weight", lo, hi, **kw)
@@ -204,6 +224,7 @@ ASSUMPTIONS = [
 ]
 
 MUTANTS = [
+    dict(file=INF, func="Hook.evalexec@setter", old="        self.__call_eval = value", new="        self.__call_train = value", contracts=["Hook.flags_reconfigured"]),
     dict(file=INF, func="Hook.__wrapped_posthook", old="if self.trainexec and module.training:", new="if self.trainexec or module.training:", contracts=["Hook.lifecycle"]),
     dict(file=INF, func="Hook.__wrapped_posthook", old="        if self.evalexec and not module.training:", new="        elif self.evalexec and not module.training:", contracts=["Hook.lifecycle"], expect="survives", name="control: elif is equivalent (the two conditions are exclusive on module.training)"),
     dict(file=INF, func="Hook.deregister", old="        self.__posthook_handle = None\n", new="", contracts=["Hook.lifecycle"]),
